@@ -43,7 +43,7 @@ def parse_reports(text):
 def sc_evict_stalled(rng, cid, store):
     """a chunked upload whose body arrives slowly becomes the least recently used session while other clients open more
     sessions than the limit: the eviction goroutine removes it while its handler is still copying (grace period disabled or not)"""
-    conf = mkconf(store=store, withsubj=False, uploadmax=rng.choice([1, 2, 3]), grace_ms=rng.choice([-1, -1, 0, 3600000]))
+    conf = mkconf(store=store, withsubj=False, uploadmax=rng.choice([1, 2, 3]), grace_ms=(-1 if cid % 2 else rng.choice([-1, 0, 3600000])))
     steps = [upload_post("u", digest=dg("sha256", b"{}"), body=b"{}"), upload_post("u")]
     sid = "$SID1$"
     data = bytes(rng.randrange(256) for _ in range(rng.randrange(2000, 20000)))
@@ -108,7 +108,7 @@ def run(ctx):
         for i in range(18):
             cases.append(c11.gen_case(rng, len(cases) + 1, ("mem", "dir", "memdir")[i % 3]))
         for store in ("mem", "dir"):
-            for f, n in ((c12.sc_waiter, 2), (c12.sc_close_ticker, 1), (c12.sc_uploads, 3), (c12.sc_mixed, 4), (sc_evict_stalled, 3), (sc_children, 3)):
+            for f, n in ((c12.sc_waiter, 2), (c12.sc_close_ticker, 1), (c12.sc_uploads, 3), (c12.sc_mixed, 4), (sc_evict_stalled, 6 if store == "dir" else 2), (sc_children, 3)):
                 for _ in range(n):
                     cases.append(f(rng, len(cases) + 1, store))
     logp = os.path.join(ctx.work, "race.log")
